@@ -206,7 +206,25 @@ def load_orders(res):
                 sx_files = [[[i[0], i[1], [[m[0], [[a[0], a[1], common.opt(a[2]), common.opt(a[3])] for a in m[1]]] for m in i[2]],
                               [[e[0], 1 if e[1] else 0, [[x[0], int(x[1], 0) if '<<' not in x[1] else (int(x[1].split('<<')[0], 0) << int(x[1].split('<<')[1], 0))] for x in e[2]]] for e in i[3]]]
                              for i in files[k]] for k in order]
-                m = common.model_eval('load', [[sx_files, names]], shards=1)[0]
+                lookups = []
+                for n in names:
+                    i = idump.get(n)
+                    if not i:
+                        continue
+                    for msg in i[2]:
+                        for k, a in enumerate(msg[1]):
+                            if a[3]:
+                                for v in (0, 1, 2, 3, 4, 8, 12):
+                                    lookups.append(['enum', n, msg[0], k, v])
+                both = common.model_eval('load', [[sx_files, names, lookups]], shards=1)[0]
+                m, mlook = both[0], both[1]
+                for lk, ml in zip(lookups, mlook):
+                    il = ires(protocol.look_up_enum, lk[1], lk[2], lk[3], lk[4])
+                    res.evaluations += 1
+                    if il != ml and ml != ['raise', 99]:
+                        res.disagree('enum lookup on a synthetic description differs from model', dict(lookup=lk, files=[open(paths[k]).read() for k in order]),
+                                     ml, il, sig={'entry': 'load-lookup', 'lookup': lk}, theorem='C07_enum_decode_exact')
+                        break
                 res.evaluations += 1
                 got = [common.opt(idump.get(n)) for n in names]
                 if got != m:
